@@ -377,9 +377,9 @@ func run(c *runner.Ctx) {
 		}
 		switch {
 		case cp <= 2:
-			return 5
+			return 6
 		case cp == 3:
-			return 4
+			return 5
 		default:
 			return 4
 		}
